@@ -114,7 +114,8 @@ func runHandle(cs string) string {
 			if len(f) != 4 {
 				return "bad-case"
 			}
-			rc := router.RuleConfig{Reverse: f[1] == "1", Reject: atoi(f[2])}
+			rc := router.RuleConfig{Reverse: f[1] == "1"}
+			setReject(&rc, atoi(f[2]))
 			if f[0] != "*" && f[0][0] == 's' {
 				rc.Domain = f[0]
 			} else if f[0] != "*" {
